@@ -344,6 +344,20 @@ func (c *Chain) Project(ctx sdk.Context) map[string]any {
 			"marketPrice": probeDec(func() (math.LegacyDec, error) { return a.PerpetualKeeper.GetAssetPrice(pctx, o.TradingAsset) })}
 	}
 	st["ts"] = map[string]any{"spot": spot, "perp": perpo}
+
+	// ---- epochs clock and burner configuration (extended specification)
+	eps := map[string]any{}
+	for _, ei := range a.EpochsKeeper.AllEpochInfos(ctx) {
+		eps[ei.Identifier] = map[string]any{"num": ei.CurrentEpoch, "cur": ei.CurrentEpochStartTime.Unix(), "duration": int64(ei.Duration.Seconds()),
+			"started": ei.EpochCountingStarted, "start": ei.StartTime.Unix()}
+	}
+	st["epochs"] = eps
+	bd := []any{}
+	a.BankKeeper.IterateAllDenomMetaData(ctx, func(md banktypes.Metadata) bool {
+		bd = append(bd, md.Base)
+		return false
+	})
+	st["burner"] = map[string]any{"epoch": a.BurnerKeeper.GetParams(ctx).EpochIdentifier, "denoms": bd}
 	return st
 }
 
